@@ -75,6 +75,12 @@ class Runner:
                 br = Bridge(a)
                 br.learn_hashes(st1)
             specs, targets = [], []
+            rd_hit = set()
+            for kind, who, j, errno in case['faults']:
+                if kind == 'rd':
+                    lst = ref.files.get(who, [])
+                    if j <= len(lst):
+                        rd_hit.add(lst[j - 1])
             for kind, who, j, errno in case['faults']:
                 if kind == 'rd':
                     d, sub = who
@@ -83,7 +89,8 @@ class Runner:
                     targets.append(('rd', lst[j - 1] if j <= len(lst) else None, d, errno))
                 else:
                     specs.append('pwrite:%s:%d:%d' % (parity_sub(who), j, errno))
-                    lst = ref.written.get(who, [])
+                    # a stripe skipped because of a read error is not written: the j-th pwrite is the j-th of the others
+                    lst = [p for p in ref.written.get(who, []) if p not in rd_hit]
                     targets.append(('wr', lst[j - 1] if j <= len(lst) else None, who, errno))
             opts = ['--test-io-cache', str(case['cache'])]
             if case.get('limit') is not None:
@@ -488,8 +495,13 @@ def main(tier, replay=None):
                     else:
                         lev = chk.rng.randrange(np_)
                         fl.append(('wr', lev, chk.rng.randint(1, max(1, len(R.ref.written.get(lev, [1])))), chk.rng.choice([EIO, ENOSPC])))
-                if fl:
-                    sc.append({'cache': chk.rng.choice(caches), 'faults': fl})
+                # one fault per call: the shim applies the last matching specification
+                seen, fl2 = set(), []
+                for f in fl:
+                    if (f[0], f[1], f[2]) not in seen:
+                        seen.add((f[0], f[1], f[2])); fl2.append(f)
+                if fl2:
+                    sc.append({'cache': chk.rng.choice(caches), 'faults': fl2})
         pmap(R.sync_case, sc)
         scc = scrub_cases(R.ref, scn, [caches[0], caches[-1]] if quick else caches, quick) if (gi == 0 or not quick) else []
         pmap(R.scrub_case, scc)
